@@ -425,6 +425,12 @@ def replay_of(b, pt=None):
 
 # ------------------------------------------------------------------------------------------
 def run(ctx):
+    _run_main(ctx)
+    import reuse_common
+    reuse_common.reuse_check(ctx, "C02")
+
+
+def _run_main(ctx):
     rng = ctx.rng
     ncase = ctx.n(60, 1300)
     builds = [build_2d_case(rng, nbands=3, maxpts=6 if ctx.quick() else 8, nfmax=20 if ctx.quick() else 30)
